@@ -21,7 +21,7 @@ import (
 type gateSpec struct {
 	fn     string
 	what   string
-	effect func(f *Func) func(Point, ast.Node) bool
+	effect func(f *Func) []Site
 	// tolerated returns the reason why the failure of the call at s may fall
 	// through to the effect, or "".
 	tolerated func(f *Func, s Site) string
@@ -35,18 +35,18 @@ type gateGroup struct {
 }
 
 // effectSuccess: any return whose error result is the literal nil.
-func effectSuccess(f *Func) func(Point, ast.Node) bool {
-	return atAnySite(successReturns(f))
+func effectSuccess(f *Func) []Site {
+	return successReturns(f)
 }
 
 // effectCalls: any call (wrapper-aware) to one of specs, or a success return.
-func effectCalls(andSuccess bool, specs ...Callee) func(f *Func) func(Point, ast.Node) bool {
-	return func(f *Func) func(Point, ast.Node) bool {
+func effectCalls(andSuccess bool, specs ...Callee) func(f *Func) []Site {
+	return func(f *Func) []Site {
 		sites := f.CallsW(specs...)
 		if andSuccess {
 			sites = append(sites, successReturns(f)...)
 		}
-		return atAnySite(sites)
+		return sites
 	}
 }
 
@@ -101,10 +101,9 @@ var gateGroups = []gateGroup{
 			{fn: "ctlog.LoadLog", what: "start-up verification", effect: effectSuccess, min: 10, tolerated: loadLogTolerated},
 			{fn: "ctlog.openCheckpoint", what: "checkpoint opening", effect: effectSuccess, min: 4},
 		}},
-	{prop: "C03", id: "C03.j", rule: "every failing step of a sequencing round cuts off the lock-backend commit and the success return; every failing step of applyStagedUploads cuts off its success return",
+	{prop: "C03", id: "C03.j", rule: "every failing step of a sequencing round cuts off the lock-backend commit and the success return",
 		specs: []gateSpec{
 			{fn: "ctlog.(*Log).sequencePool", what: "sequencing round", effect: effectCalls(true, specLockRepl), min: 8, tolerated: sequenceTolerated},
-			{fn: "ctlog.applyStagedUploads", what: "staged-upload application", effect: effectSuccess, min: 1},
 		}},
 	{prop: "C01", id: "C01.l", rule: "every failing step of a sequencing round (hashing, signing, staging, tile upload) cuts off the lock-backend commit and the checkpoint publication",
 		specs: []gateSpec{
@@ -134,11 +133,11 @@ var gateGroups = []gateGroup{
 		specs: []gateSpec{
 			{fn: "witness.(*Witness).processSignSubtreeRequest", what: "sign-subtree processing", effect: effectSuccess, min: 3},
 		}},
-	{prop: "C18", id: "C18.f", rule: "every failing step of the cleaning function (directory read, tile-path parsing, override) cuts off the Remove calls; every failing step of logSize / overrideImmutable cuts off their success return",
+	{prop: "C18", id: "C18.f", rule: "every failing step of the cleaning function (directory read, tile-path parsing, override) cuts off the Remove calls; every failing step of logSize cuts off its success return, every failing step of overrideImmutable the immutable.Unset call",
 		specs: []gateSpec{
 			{fn: "partial-aftersun.cleanDir", what: "cleaning", effect: effectCalls(false, Callee{"os", "Root", "Remove"}), min: 3, tolerated: cleanDirTolerated},
 			{fn: "partial-aftersun.logSize", what: "size discovery", effect: effectSuccess, min: 3},
-			{fn: "partial-aftersun.overrideImmutable", what: "immutable override", effect: effectSuccess, min: 2},
+			{fn: "partial-aftersun.overrideImmutable", what: "immutable override", effect: effectCalls(false, Callee{pkgImmut, "", "Unset"}), min: 3},
 		}},
 	{prop: "C20", id: "C20.f", rule: "every failing step of the per-log and per-witness health checks cuts off the healthy (nil) verdict",
 		specs: []gateSpec{
@@ -211,7 +210,12 @@ func runGateGroup(c *Ctx, gg gateGroup) {
 			continue
 		}
 		tol := sp.tolerated
-		n := c.errorsGate(f.Name, f, sp.what, sp.effect(f), func(s Site) string {
+		eff := sp.effect(f)
+		if len(eff) == 0 {
+			c.Unk(f.Name, fmt.Sprintf("%s: the protected effect (success return / guarded call) was not found in %s", sp.what, f.Name))
+			continue
+		}
+		n := c.errorsGate(f.Name, f, sp.what, atAnySite(eff), func(s Site) string {
 			if tol == nil {
 				return ""
 			}
